@@ -70,23 +70,30 @@ Fixpoint fold_out {X} (f : Z -> X -> outcome X) (l : list Z) (x : X) : outcome X
 
 Record ctx := mkC { now : Z; height : Z }.
 
-Section Gov.
-Variables (A content ext : Type).
-Variable valid_basic : content -> bool.                (* Content.ValidateBasic *)
-Variable can_propose : A -> Z -> content -> bool.      (* CheckIfAllowedPermission(proposer, ProposalPermission) *)
-Variable is_active : A -> Z -> bool.                   (* actor found and Active *)
-Variable has_vote_perm : A -> Z -> content -> bool.    (* CheckIfAllowedPermission(voter, VotePermission) *)
-Variable nvoters : A -> content -> Z.                  (* len(GetNetworkActorsByAbsoluteWhitelistPermission) *)
-Variable nveto : A -> content -> Z.                    (* len(GetActorsWithVoteWithVeto(availableVoters)) *)
-Variable quorum_of : A -> content -> Z.                (* VoteQuorum (sdk.Dec scaled by 10^18) *)
-Variable end_secs : A -> content -> Z.                 (* max(duration(type), MinimumProposalEndTime) *)
-Variable enact_secs : A -> content -> Z.               (* ProposalEnactmentTime *)
-Variable min_end_blocks : A -> Z.
-Variable min_enact_blocks : A -> Z.
-Variable handler : content -> A -> outcome A.          (* ProposalHandler.Apply *)
-Variable ext_step : ext -> A -> A.                     (* anything else that happens on the chain *)
-Variable decide : tally -> vresult.                    (* CalculatedVotes.ProcessResult *)
+(* everything that is not the lifecycle itself *)
+Record params (A content ext : Type) := mkParams {
+  valid_basic : content -> bool;                (* Content.ValidateBasic *)
+  can_propose : A -> Z -> content -> bool;      (* CheckIfAllowedPermission(proposer, ProposalPermission) *)
+  is_active : A -> Z -> bool;                   (* actor found and Active *)
+  has_vote_perm : A -> Z -> content -> bool;    (* CheckIfAllowedPermission(voter, VotePermission) *)
+  nvoters : A -> content -> Z;                  (* len(GetNetworkActorsByAbsoluteWhitelistPermission) *)
+  nveto : A -> content -> Z;                    (* len(GetActorsWithVoteWithVeto(availableVoters)) *)
+  quorum_of : A -> content -> Z;                (* VoteQuorum (sdk.Dec scaled by 10^18) *)
+  end_secs : A -> content -> Z;                 (* max(duration(type), MinimumProposalEndTime) *)
+  enact_secs : A -> content -> Z;               (* ProposalEnactmentTime *)
+  min_end_blocks : A -> Z;
+  min_enact_blocks : A -> Z;
+  handler : content -> A -> outcome A;          (* ProposalHandler.Apply *)
+  ext_step : ext -> A -> A;                     (* anything else that happens on the chain *)
+  decide : tally -> vresult }.                  (* CalculatedVotes.ProcessResult *)
+Arguments valid_basic {A content ext}. Arguments can_propose {A content ext}. Arguments is_active {A content ext}.
+Arguments has_vote_perm {A content ext}. Arguments nvoters {A content ext}. Arguments nveto {A content ext}.
+Arguments quorum_of {A content ext}. Arguments end_secs {A content ext}. Arguments enact_secs {A content ext}.
+Arguments min_end_blocks {A content ext}. Arguments min_enact_blocks {A content ext}. Arguments handler {A content ext}.
+Arguments ext_step {A content ext}. Arguments decide {A content ext}.
 
+Section Records.
+Variables (A content : Type).
 Record proposal := mkP {
   p_content : content; p_submit : Z; p_vend : Z; p_eend : Z; p_minv : Z; p_mine : Z;
   p_result : vresult; p_exec : Z (* 0 "", 1 "executed successfully", 2 "execution failed" *) }.
@@ -108,19 +115,38 @@ Record state := mkS {
   log : list event }.
 
 Definition init (a : A) : state := mkS a (fun _ => None) (fun _ => []) [] [] 1 [].
+End Records.
+Arguments mkP {content}. Arguments p_content {content}. Arguments p_submit {content}. Arguments p_vend {content}.
+Arguments p_eend {content}. Arguments p_minv {content}. Arguments p_mine {content}. Arguments p_result {content}. Arguments p_exec {content}.
+Arguments EvSubmit {A content}. Arguments EvVote {A content}. Arguments EvFinal {A content}. Arguments EvApply {A content}.
+Arguments mkS {A content}. Arguments app {A content}. Arguments props {A content}. Arguments votes {A content}.
+Arguments activeq {A content}. Arguments enactq {A content}. Arguments next_id {A content}. Arguments log {A content}.
+Arguments init {A content}.
+
+Inductive op (content ext : Type) :=
+| OSubmit (who : Z) (ct : content)
+| OVote (who id opt : Z)
+| OEndBlock
+| OExt (e : ext).
+Arguments OSubmit {content ext}. Arguments OVote {content ext}. Arguments OEndBlock {content ext}. Arguments OExt {content ext}.
+
+Section Gov.
+Variables (A content ext : Type).
+Variable P : params A content ext.
+Notation state := (state A content).
 
 (* ---- MsgSubmitProposal (a failing message leaves no trace: the transaction is reverted) *)
 Definition submit (c : ctx) (who : Z) (ct : content) (s : state) : outcome state :=
-  if negb (valid_basic ct) then Err "invalid content"
-  else if negb (can_propose (app s) who ct) then Err "not enough permissions"
+  if negb ((valid_basic P) ct) then Err "invalid content"
+  else if negb ((can_propose P) (app s) who ct) then Err "not enough permissions"
   else
     let a := app s in
     let id := next_id s in
-    let vend := now c + end_secs a ct in
-    let p := mkP ct (now c) vend (vend + enact_secs a ct) (height c + min_end_blocks a)
-                 (height c + (min_end_blocks a + min_enact_blocks a)) Pending 0 in
+    let vend := now c + (end_secs P) a ct in
+    let p := mkP ct (now c) vend (vend + (enact_secs P) a ct) (height c + (min_end_blocks P) a)
+                 (height c + ((min_end_blocks P) a + (min_enact_blocks P) a)) Pending 0 in
     (* dry run of the handler in a cache context that is thrown away *)
-    match handler ct a with
+    match (handler P) ct a with
     | Panic m => Panic m
     | Err e => Err e
     | Ok _ => Ok (mkS a (upd (props s) id (Some p)) (votes s) (q_insert (vend, id) (activeq s))
@@ -129,19 +155,19 @@ Definition submit (c : ctx) (who : Z) (ct : content) (s : state) : outcome state
 
 (* ---- MsgVoteProposal *)
 Definition vote (c : ctx) (who id opt : Z) (s : state) : outcome state :=
-  if negb (is_active (app s) who) then Err "actor is not active"
+  if negb ((is_active P) (app s) who) then Err "actor is not active"
   else match props s id with
   | None => Err "proposal does not exist"
   | Some p =>
       if p_vend p <? now c then Err "voting time ended"
-      else if negb (has_vote_perm (app s) who (p_content p)) then Err "not enough permissions"
+      else if negb ((has_vote_perm P) (app s) who (p_content p)) then Err "not enough permissions"
       else Ok (mkS (app s) (props s) (upd (votes s) id (set_vote who opt (votes s id))) (activeq s)
                    (enactq s) (next_id s) (EvVote id who opt c (app s) :: log s))
   end.
 
 (* ---- processProposal *)
 Definition final_result (qb : bool) (tl : tally) : vresult :=
-  if qb then match decide tl with Passed => Enactment | r => r end else QuorumNotReached.
+  if qb then match (decide P) tl with Passed => Enactment | r => r end else QuorumNotReached.
 
 Definition process_prop (c : ctx) (id : Z) (s : state) : outcome state :=
   match props s id with
@@ -151,19 +177,19 @@ Definition process_prop (c : ctx) (id : Z) (s : state) : outcome state :=
       else
         let a := app s in
         let ct := p_content p in
-        let tl := tally_of (votes s id) (nveto a ct) in
-        let nv := nvoters a ct in
-        let q := quorum_of a ct in
+        let tl := tally_of (votes s id) ((nveto P) a ct) in
+        let nv := (nvoters P) a ct in
+        let q := (quorum_of P) a ct in
         do qb <- is_quorum q (t_total tl) nv;
         let res := final_result qb tl in
-        let mine := height c + min_enact_blocks a in
+        let mine := height c + (min_enact_blocks P) a in
         let p' := mkP ct (p_submit p) (p_vend p) (p_eend p) (p_minv p) mine res (p_exec p) in
         Ok (mkS a (upd (props s) id (Some p')) (votes s) (q_remove (p_vend p, id) (activeq s))
                 (q_insert (p_eend p, id) (enactq s)) (next_id s)
                 (EvFinal id res tl nv q mine c a :: log s))
   end.
 
-(* ---- processEnactmentProposal; router.ApplyProposal keeps the handler's writes only on success *)
+(* ---- processEnactmentProposal; router.ApplyProposal keeps the (handler P)'s writes only on success *)
 Definition process_enact (c : ctx) (id : Z) (s : state) : outcome state :=
   match props s id with
   | None => Panic "proposal was expected to exist"
@@ -173,7 +199,7 @@ Definition process_enact (c : ctx) (id : Z) (s : state) : outcome state :=
         match p_result p with
         | Enactment =>
             let ct := p_content p in
-            match handler ct (app s) with
+            match (handler P) ct (app s) with
             | Panic m => Panic m
             | r =>
               let '(a', ok) := match r with Ok a' => (a', true) | _ => (app s, false) end in
@@ -193,24 +219,18 @@ Definition end_block (c : ctx) (s : state) : outcome state :=
   do s1 <- fold_out (process_enact c) (q_due (now c) (enactq s)) s;
   fold_out (process_prop c) (q_due (now c) (activeq s1)) s1.
 
-Inductive op :=
-| OSubmit (who : Z) (ct : content)
-| OVote (who id opt : Z)
-| OEndBlock
-| OExt (e : ext).
-
-Definition step (c : ctx) (o : op) (s : state) : outcome state :=
+Definition step (c : ctx) (o : op content ext) (s : state) : outcome state :=
   match o with
   | OSubmit who ct => submit c who ct s
   | OVote who id opt => vote c who id opt s
   | OEndBlock => end_block c s
-  | OExt e => Ok (mkS (ext_step e (app s)) (props s) (votes s) (activeq s) (enactq s) (next_id s) (log s))
+  | OExt e => Ok (mkS ((ext_step P) e (app s)) (props s) (votes s) (activeq s) (enactq s) (next_id s) (log s))
   end.
 
 (* a rejected message changes nothing; a panic (which would halt a real node, property C06) is
    treated likewise so that every history has a continuation *)
-Definition step_total (s : state) (co : ctx * op) : state :=
+Definition step_total (s : state) (co : ctx * op content ext) : state :=
   match step (fst co) (snd co) s with Ok s' => s' | _ => s end.
-Definition run (ops : list (ctx * op)) (s : state) : state := fold_left step_total ops s.
+Definition run (ops : list (ctx * op content ext)) (s : state) : state := fold_left step_total ops s.
 
 End Gov.
